@@ -30,6 +30,7 @@ type c12Params struct {
 	Len   int    `json:"len,omitempty"`   // bytes per record
 	Close string `json:"close,omitempty"` // what the writer does after writing: close | closewrite | nothing
 	CutRec int   `json:"cut_rec,omitempty"` // cut inside / before record CutRec (-1: no cut)
+	Inject bool  `json:"inject,omitempty"`  // instead of cutting: a record that fails authentication is inserted before record CutRec
 	Keep  int    `json:"keep,omitempty"`  // bytes of that record delivered before the transport ends
 	Seg   int    `json:"seg,omitempty"`
 	// alert
@@ -83,6 +84,9 @@ func drawC12(src *vs.Src) *c12Params {
 		p.Keep = src.Intn(wl)
 		if src.Bool(1, 3) {
 			p.Keep = 0
+		}
+		if src.Bool(1, 4) && p.CutRec >= 0 && p.CutRec < p.N {
+			p.Inject = true
 		}
 	case 4, 5:
 		p.Mode = "alert"
@@ -149,7 +153,10 @@ func c12Cut(c *Case, src *vs.Src, p *c12Params, r *Result) {
 	sigp := "C12 cut " + p.Close
 	w, pair := c12Pair(c, src, p)
 	var plan []simnet.RFault
-	if p.CutRec >= 0 {
+	if p.Inject {
+		garbage := append([]byte{23, 1, 1, 0, 48}, bytes.Repeat([]byte{0x5a}, 48)...)
+		plan = append(plan, simnet.RFault{Dir: p.Dir, Type: ref.RecAppData, N: p.CutRec, Kind: simnet.RInject, Data: garbage})
+	} else if p.CutRec >= 0 {
 		f := simnet.RFault{Dir: p.Dir, Type: ref.RecAppData, N: p.CutRec, Kind: simnet.RTrunc, Keep: p.Keep}
 		if p.CutRec == p.N {
 			f.Type, f.N = ref.RecAlert, 0 // the close_notify
@@ -228,6 +235,9 @@ func c12Cut(c *Case, src *vs.Src, p *c12Params, r *Result) {
 	whole := p.N
 	var wantErr string
 	switch {
+	case cutFired && p.Inject:
+		whole = p.CutRec
+		wantErr = "local error: tlcp: bad record MAC"
 	case cutFired && p.CutRec < p.N:
 		whole = p.CutRec
 		if p.Keep == 0 {
